@@ -85,6 +85,8 @@ def generate(seed, tier):
         tps = []
         for i in range(n):
             tps.append({"combo": r.randrange(TABLE), "line": r.choice((2, 2, 3))})
+            if r.random() < 0.3:
+                tps[-1]["via"] = "register"      # registered in code next to the ones the service sent
         if r.random() < 0.5:
             tps[r.randrange(n)]["force_bad"] = True
         lists.append(tps)
@@ -106,14 +108,21 @@ def shrink_candidates(s):
                     yield dict(s, lists=s["lists"][:li] + [cand] + s["lists"][li + 1:])
 
 
-def build(svc, tp_id, c, basename, line, tpb):
+def build_args(tp_id, c):
     args = {}
+    if c.get("_period0"):
+        # lists arm: hits are 2 s apart anyway; without a period two actions on ONE hit are both visible
+        args["fire_period"] = "0"
     for key in ("stage", "method_name", "span", "snapshot", "condition", "fire_count", "frame_type"):
         if c[key] is not None:
             args[key] = c[key]
     if c["log_msg"]:
         args["log_msg"] = "L%s {i}" % tp_id
-    watches = ["i"] if c["watches"] else []
+    return args, (["i"] if c["watches"] else [])
+
+
+def build(svc, tp_id, c, basename, line, tpb):
+    args, watches = build_args(tp_id, c)
     metrics = [tpb.Metric(name="m%s_%d" % (tp_id, j), type=(tpb.MetricType.COUNTER, tpb.MetricType.GAUGE)[j])
                for j in range(c["metrics"])]
     return svc.make_tp(tp_id, basename, line, args, watches, metrics)
@@ -163,6 +172,7 @@ def execute(s, ch):
             k.now_ns += 2_000_000_000
         g = p.load({"tick": tick})
         groups = []
+        label_of = {}
         if s["arm"] == "table":
             for ci in s["combos"]:
                 groups.append([{"combo": ci, "line": TP_LINE}])
@@ -171,11 +181,17 @@ def execute(s, ch):
         for gi, tps in enumerate(groups):
             protos = []
             refs = {}
+            in_code = []
             for ti, tp in enumerate(tps):
                 c = combo_of(tp["combo"])
+                if s["arm"] == "lists":
+                    c["_period0"] = True
                 if tp.get("force_bad"):
                     c["stage"] = "bogus_stage"
                 tp_id = "g%dt%d" % (gi, ti)
+                if tp.get("via") == "register":
+                    in_code.append((tp_id, c, tp["line"]))
+                    continue
                 protos.append(build(w.service, tp_id, c, p.basename, tp["line"], tpb))
                 refs[tp_id] = (c, reference(c, tp["line"]), tp["line"])
             w.service.set_config(protos, "h%d" % (gi + 1))
@@ -187,6 +203,27 @@ def execute(s, ch):
                 viol.append(V("poll-raised:%s" % type(e).__name__, "%r for response %s" % (e, [
                     (i_, dict(pr.args)) for i_, pr in enumerate(protos)])))
                 continue
+            k.settle()
+            # the ones registered in code: the same arguments through Deep.register_tracepoint; told apart by the id of
+            # the registration; an uninterpretable one may be refused, and then does nothing
+            handles = []
+            from deep.api.tracepoint.tracepoint_config import MetricDefinition
+            for (label, c, line) in in_code:
+                args, watches = build_args(label, c)
+                ms = [MetricDefinition("m%s_%d" % (label, j), ("COUNTER", "GAUGE")[j]) for j in range(c["metrics"])]
+                try:
+                    h = w.deep.register_tracepoint(p.basename, line, args, watches, ms)
+                except kernel.SimKilled:
+                    raise
+                except BaseException as e:  # noqa
+                    if reference(c, line) is not None and reference(c, line)["where"] is not None:
+                        viol.append(V("register-raised:%s" % type(e).__name__, "%r for %s" % (e, args)))
+                    continue
+                handles.append(h)
+                rid = h._TracepointRegistration__id
+                for (cc, rr, ll) in [(c, reference(c, line), line)]:
+                    refs[rid] = (cc, rr, ll)
+                    label_of[rid] = label
             k.settle()
             ev0 = len(rec.events)
             eff0 = len(rec.all_effects)
@@ -216,9 +253,9 @@ def execute(s, ch):
                 if kind == "snapshot":
                     ident = tp_id
                 elif kind == "log":
-                    ident = payload[1] if payload[1] in refs else next((i_ for i_ in refs if ("L%s " % i_) in payload[0]), None)
+                    ident = payload[1] if payload[1] in refs else next((i_ for i_ in refs if ("L%s " % label_of.get(i_, i_)) in payload[0]), None)
                 elif kind == "metric":
-                    ident = next((i_ for i_ in refs if payload[2].startswith("m%s_" % i_)), None)
+                    ident = next((i_ for i_ in refs if payload[2].startswith("m%s_" % label_of.get(i_, i_))), None)
                 elif kind == "span":
                     ident = tp_id
                 got.setdefault(ident, []).append((kind, hit_of_event.get(seq), ev[2], ev[4], payload))
@@ -230,7 +267,7 @@ def execute(s, ch):
                     continue
                 info["checked"] += 1
                 mine = got.get(tp_id, [])
-                desc = {k_: v_ for k_, v_ in c.items() if v_ not in (None, 0)}
+                desc = {k_: v_ for k_, v_ in c.items() if v_ not in (None, 0) and k_ != "_period0"}
                 if ref["where"] is None:
                     if mine:
                         viol.append(V("uninterpretable-tracepoint-acted", "%s: %s" % (desc, [(x[0], x[1]) for x in mine])))
@@ -282,6 +319,16 @@ def execute(s, ch):
                         viol.append(V("snapshot-frame-type", "%s: top frame has variables: %s" % (desc, has_vars)))
                     if es.tracepoint.id != tp_id:
                         viol.append(V("snapshot-names-other-tracepoint", "%s vs %s" % (es.tracepoint.id, tp_id)))
+            for h in handles:
+                try:
+                    h.unregister()
+                except kernel.SimKilled:
+                    raise
+                except BaseException as e:  # noqa
+                    viol.append(V("unregister-raised:%s" % type(e).__name__, repr(e)))
+            if handles:
+                k.probe("registered_in_code", len(handles))
+                k.settle()
         k.probe("combinations_checked", info["checked"])
         w.deep.shutdown()
         w.close()
